@@ -572,7 +572,12 @@ class BzrServerFactory:
         Returns:
             tuple: A pair of (stdin, stdout) binary file objects.
         """
-        return sys.stdin.buffer, sys.stdout.buffer
+        # Read requests from the raw (unbuffered) stdin: a BufferedReader may
+        # read ahead past the end of the current request, and the medium waits
+        # for the next request with select() on the file descriptor, which
+        # cannot see bytes that already sit in a userspace buffer.
+        stdin = getattr(sys.stdin.buffer, "raw", sys.stdin.buffer)
+        return stdin, sys.stdout.buffer
 
     def _make_smart_server(self, host, port, inet, timeout):
         """Create the appropriate smart server based on the connection type.
